@@ -197,6 +197,45 @@ func gen(t *rapid.T) Case {
 		c.Tol = vkit.F(float64(rapid.SampledFrom([]int{0, 0, 1, 2, 3, 5, 8, 40}).Draw(t, "thintol")) / 2 * u)
 		return c
 	}
+	if rapid.IntRange(0, 19).Draw(t, "farback") == 7 {
+		// round 13: a line that runs 2^20 to 2^60 units away and comes back to within 1 to 2^(a-10) units of where it
+		// started, across the direction it left in - offsets of very different sizes from one vertex - and the whole of it
+		// (half of the cases) multiplied by 2^440..2^560 or 2^-560..2^-440, where products of two offsets leave the range
+		// of float64 unless they are rescaled; everything is a small integer times a power of two, so the scaling is exact
+		c.Kind = "farback"
+		a := rapid.IntRange(20, 60).Draw(t, "fara")
+		cexp := rapid.IntRange(0, a-10).Draw(t, "farc")
+		sx, sy := float64(rapid.IntRange(0, 8).Draw(t, "farsx")), float64(rapid.IntRange(0, 8).Draw(t, "farsy"))
+		p, q := rapid.IntRange(-3, 3).Draw(t, "farp"), rapid.IntRange(-3, 3).Draw(t, "farq")
+		if p == 0 && q == 0 {
+			p = 1
+		}
+		A, C := math.Ldexp(1, a), math.Ldexp(1, cexp)
+		l := []vkit.P2{vkit.MkP(sx, sy)}
+		for k, n := 0, rapid.IntRange(0, 2).Draw(t, "farpre"); k < n; k++ {
+			l = append(l, vkit.MkP(sx+float64(rapid.IntRange(-4, 4).Draw(t, "farprex"))*C, sy+float64(rapid.IntRange(-4, 4).Draw(t, "farprey"))*C))
+		}
+		l = append(l, vkit.MkP(sx+float64(p)*A, sy+float64(q)*A))
+		for k, n := 0, rapid.IntRange(1, 3).Draw(t, "farpost"); k < n; k++ {
+			j := rapid.IntRange(1, 4).Draw(t, "farj")
+			if rapid.Bool().Draw(t, "farside") {
+				j = -j
+			}
+			l = append(l, vkit.MkP(sx-float64(q*j)*C+float64(rapid.IntRange(-1, 1).Draw(t, "farjx"))*C, sy+float64(p*j)*C+float64(rapid.IntRange(-1, 1).Draw(t, "farjy"))*C))
+		}
+		if rapid.IntRange(0, 3).Draw(t, "farclose") == 0 {
+			l = append(l, l[0])
+		}
+		c.Lines = [][]vkit.P2{l}
+		c.Tol = vkit.F(rapid.SampledFrom([]float64{0.5, C, 8 * C, A / 8, 64 * A}).Draw(t, "fartol"))
+		switch rapid.IntRange(0, 3).Draw(t, "farscale") {
+		case 0, 1:
+			c.ScaleExp = rapid.IntRange(440, 560).Draw(t, "farscaleup")
+		case 2:
+			c.ScaleExp = -rapid.IntRange(440, 560).Draw(t, "farscaledown")
+		}
+		return c
+	}
 	if rapid.IntRange(0, 19).Draw(t, "flatpoke") == 11 {
 		// a poke line whose bay is flat beyond anything a margin would call general position: a base of length w, an apex
 		// only w*2^-k off it (k = 20..42), and a last segment that comes in almost parallel to the base - from a point a
@@ -580,6 +619,58 @@ func run(c Case) (v vkit.Verdict) {
 		v.NonTrivial = true
 		return v
 	}
+	if c.Kind == "farback" {
+		l := c.Lines[0]
+		in := make(geom.LineString, len(l))
+		for i, q := range l {
+			in[i] = geom.Point{X: float64(q[0]) * sc, Y: float64(q[1]) * sc}
+		}
+		orig := append(geom.LineString{}, in...)
+		var outL geom.LineString
+		var outP geom.Polygon
+		if p := vkit.Catch(func() {
+			outL = in.Simplify(tol * sc).(geom.LineString)
+			outP = geom.Polygon{geom.Path(append(geom.LineString{}, in...))}.Simplify(tol * sc).(geom.Polygon)
+		}); p != "" {
+			return v.Fail("Simplify panicked on a line that runs far away and comes back (scale 2^%d): %s", c.ScaleExp, p)
+		}
+		if !reflect.DeepEqual(append(geom.LineString{}, in...), orig) {
+			return v.Fail("input line was modified")
+		}
+		unscaled := scalePath(geom.Path(in), inv)
+		d, msg := checkCurve(unscaled, scalePath(geom.Path(outL), inv), tol)
+		if msg != "" {
+			return v.Fail("line that runs far away and comes back, times 2^%d (tol %v before scaling): %s; input (unscaled) %v output (unscaled) %v", c.ScaleExp, tol, msg, unscaled, scalePath(geom.Path(outL), inv))
+		}
+		if d > 0 {
+			v.Class("farback_dropped_vertices")
+		}
+		if c.ScaleExp != 0 {
+			v.Class("farback_scaled_beyond_2^440")
+		}
+		v.NonTrivial = true
+		// the same vertices as the one ring of a polygon: the ring may be rotated or closed by the code, so only the
+		// vertices that were dropped are judged - each within the tolerance of SOME segment between kept vertices is
+		// more than the property asks; what it asks is that a dropped vertex is near the output ring
+		if len(outP) == 1 {
+			ring := scalePath(outP[0], inv)
+			maxabs := 0.0
+			for _, q := range unscaled {
+				maxabs = math.Max(maxabs, math.Max(math.Abs(q.X), math.Abs(q.Y)))
+			}
+			for _, q := range unscaled {
+				best := math.Inf(1)
+				for i := 0; i < len(ring); i++ {
+					a, b := ring[i], ring[(i+1)%len(ring)]
+					best = math.Min(best, vkit.DistPtSeg(vkit.MkP(q.X, q.Y), vkit.MkP(a.X, a.Y), vkit.MkP(b.X, b.Y)))
+				}
+				if len(ring) > 0 && best > tol*(1+1e-9)+1e-12+16*maxabs*0x1p-52 {
+					return v.Fail("ring that runs far away and comes back, times 2^%d (tol %v before scaling): vertex %v is %v from the simplified ring %v", c.ScaleExp, tol, q, best, ring)
+				}
+			}
+		}
+		return v
+	}
 	if c.Kind == "flatpoke" {
 		l := c.Lines[0]
 		if !vkit.ExactSimple(l) {
@@ -821,7 +912,8 @@ func TestProp(t *testing.T) {
 			"independently, and - when the input is simple by an independent O(n^2) test with margin 1e-6 - no two non-adjacent output segments properly cross (orientation margin 1e-9); for simple lines of <= 60 vertices that last test and the end points are repeated with the line multiplied exactly by 2^k for every second k in -60..60 (scale sweep). " +
 			"Non-trivial = at least one vertex dropped. Distinct by case hash." +
 			" Round 9: 'weave' lines (1 in 4 of the line cases that are not poke lines: a comb of 0-18 tall spikes, a vertex S, a tail of 5-18 vertices inside a band of 0.3-1.1 tolerances under the spike tips)." +
-			" Round 10: poke detours of 512, 1024 and 2048 vertices less 0-4; in half of the poke lines one or two more vertices follow the segment that enters the bay.",
+			" Round 10: poke detours of 512, 1024 and 2048 vertices less 0-4; in half of the poke lines one or two more vertices follow the segment that enters the bay." +
+			" Round 13: kind farback (1 in 20): a line that runs 2^20-2^60 units away and returns across its own direction to within a few units of its start, half of them multiplied exactly by 2^+-(440..560); judged as a line and as the ring of a polygon.",
 		Assumptions:  []string{"termination is decided by a 20 s watchdog on calls that normally take microseconds, confirmed by a fresh-process replay", "rings of one polygon are not claimed independent (the code passes sibling rings as obstacles)"},
 		Gen:          gen,
 		Run:          run,
